@@ -65,8 +65,18 @@ def run(ctx):
     b = [("create-delete-cycle", cycle) for _ in range(10 if ctx.tier == "quick" else 200)]
     b += [("dircache-directory-cycle", cache_dir_cycle) for _ in range(6 if ctx.tier == "quick" else 120)]
     b += [("dircache-empty-a-block", c07.block_sweep) for _ in range(2 if ctx.tier == "quick" else 30)]
-    b += c01.builders(ctx)[: (18 if ctx.tier == "quick" else 300)]
+    b += c01.builders(ctx)[: (100 if ctx.tier == "quick" else 1200)]
     b += [("namespace", c02.ns_history) for _ in range(8 if ctx.tier == "quick" else 200)]
+    # exhaustion: a call that fails for lack of space must not keep blocks (the reference model is replayed with what was stored)
+    from . import c08
+
+    def wrap(fn):
+        def g(ctx):
+            L, first, nb, meta = fn(ctx)
+            return L, first, nb, meta, {"spec_patch": c08.spec_patch, "ignore_names": c08.FILLERS}
+        return g
+    b += [("extension-boundary-exhaustion", wrap(c08.boundary_history)) for _ in range(10 if ctx.tier == "quick" else 200)]
+    b += [("forced-exhaustion", wrap(c08.forced_history)) for _ in range(14 if ctx.tier == "quick" else 280)]
     b += [("multi-page", c04.big_volume) for _ in range(2 if ctx.tier == "quick" else 40)]
     b += [("rdb-partition", c03.part_history) for _ in range(3 if ctx.tier == "quick" else 60)]
     rule = ("DIRCACHE directories grown over several cache blocks, emptied tail-first / head-first / randomly / by moving entries out, then deleted; create/truncate/delete cycles over the size classes 0, <72, =72, >72, >144 data blocks with and without directory cache; file, namespace, multi-page and "
